@@ -187,7 +187,7 @@ func vNewWorld(nPool, nVal int, storeJ uint64) (*vShadow, Forkchoice, Root) {
 	s.nodes = []vNode{{root: 0, slot: 0, t: -1, f: -1, je: storeJ, fe: 0, block: true}}
 	s.start = 0
 	fc, err := NewProtoForkChoice(spec, Checkpoint{Root: s.pool[0], Epoch: 0}, Checkpoint{Root: s.pool[0], Epoch: Epoch(storeJ)},
-		s.pool[0], 0, anchorParent, bals, nil)
+		s.pool[0], 0, anchorParent, bals, vSinkOrNil())
 	zzverif.Assert(err == nil, "NewProtoForkChoice on a consistent anchor succeeds")
 	return s, fc, anchorParent
 }
@@ -314,4 +314,11 @@ func VerifHarness_C09_votes() {
 	}
 	zzverif.Reach("votes")
 	s.vCheckHead(fc)
+}
+
+func vSinkOrNil() NodeSink {
+	if vSinkGlobal == nil {
+		return nil
+	}
+	return vSinkGlobal
 }
